@@ -142,6 +142,7 @@ impl PartialOrd for Timestamp {
     #[verifier::external_body] fn gt(&self, o: &Timestamp) -> (r: bool) ensures r == (self.nanos > o.nanos) { unimplemented!() }
     #[verifier::external_body] fn ge(&self, o: &Timestamp) -> (r: bool) ensures r == (self.nanos >= o.nanos) { unimplemented!() }
 }
+impl Default for Timestamp { #[verifier::external_body] fn default() -> (r: Timestamp) ensures r.nanos == 0 { unimplemented!() } }
 impl Timestamp {
     #[verifier::external_body] pub const fn from_nanos(n: u64) -> (r: Timestamp) ensures r.nanos == n { unimplemented!() }
     #[verifier::external_body] pub const fn from_seconds(n: u64) -> (r: Timestamp)
